@@ -753,6 +753,97 @@ def stage_gw(ctx, profiles, stall_props=("C13", "C15", "C19"), monitor_props=Non
     return rep
 
 
+# ------------------------------------------------------------------ integrated model stage (lock-step)
+
+def run_core(ctx, tdir):
+    """Run the extracted integrated model Comp/Core.v in lock-step with the traces of a directory."""
+    files = sorted(glob.glob(os.path.join(tdir, "*.trace")))
+    ok, diffs, outside, ops, outs = 0, [], [], 0, 0
+    for i in range(0, len(files), 400):
+        rc, out = sh([driver_exe(), "core"] + files[i:i + 400], timeout=1800)
+        if rc != 0:
+            ctx.add_violation("model driver failed: " + out[-1500:], {"kind": "driver", "log": out[-3000:]}, no_input=True)
+            return None
+        for l in out.splitlines():
+            f = l.split("\t")
+            if f[0] == "COREOK":
+                ok += 1
+                ops += int(f[2])
+                outs += int(f[3])
+            elif f[0] == "COREDIFF":
+                diffs.append({"path": f[1], "line": int(f[2]), "op": f[3], "model": f[4], "gateway": f[5] if len(f) > 5 else ""})
+            elif f[0] == "COREOUT":
+                outside.append({"path": f[1], "line": int(f[2]), "why": f[3] if len(f) > 3 else ""})
+    return {"ok": ok, "diffs": diffs, "outside": outside, "ops": ops, "outs": outs, "files": len(files)}
+
+
+def stage_core(ctx, n_quick=300, n_thorough=4000, monitor_props=None):
+    """The integrated model of the flat-resource fragment (Comp/Core.v, theorems in Proofs/CoreProofs.v) run in lock-step with
+    histories of the real gateway (profile `core`): every stimulus and scheduler grant is one op of the extracted machine and
+    what it emits must be what the gateway emitted. The monitors of this property are evaluated on the same traces: when the
+    lock-step breaks they are the search for a failing input."""
+    rep = {}
+    if ctx.replay:
+        payload = json.load(open(ctx.replay)).get("replay", {})
+        if payload.get("kind") != "core":
+            return {"skipped": "replay of another stage"}
+        tdir = os.path.join(ctx.work, "replay-core")
+        rc, out = sh([os.path.join(BUILD, "gwrun"), "-replay", payload["history"], "-out", tdir], timeout=600)
+        r = run_core(ctx, tdir)
+        if r and r["diffs"]:
+            d = r["diffs"][0]
+            ctx.add_violation("core: lock-step broken at trace line %d on %s: model emits [%s], gateway emitted [%s]" % (d["line"], d["op"], d["model"], d["gateway"]),
+                              dict(payload), no_input=True)
+        ctx.evaluations += 1
+        return {"replayed": payload["history"], "lockstep": r}
+    n = ctx.q(n_quick, n_thorough)
+    tdir = os.path.join(ctx.work, "traces-core")
+    rc, out = sh([os.path.join(BUILD, "gwrun"), "-seed", str(ctx.seed), "-n", str(n), "-profile", "core", "-out", tdir], timeout=3000)
+    if rc != 0:
+        m = re.search(r"(panic:|fatal error:)[^\n]*", out)
+        ctx.add_violation("gateway harness crashed in profile core: %s" % (m.group(0) if m else out[:600]),
+                          {"kind": "crash", "profile": "core", "seed": ctx.seed, "log": out[:6000] + "\n...\n" + out[-3000:]})
+        return {"error": out[-800:]}
+    viols, stats, stalls = run_traces(ctx, tdir)
+    before = len(ctx.violations)
+    nk = triage_gw(ctx, viols, stalls, (), monitor_props)
+    found_input = len(ctx.violations) > before
+    r = run_core(ctx, tdir)
+    if r is None:
+        return {"error": "driver"}
+    ctx.evaluations += r["files"]
+    ctx.nontrivial += sum(1 for s in stats if s["frames"] > 4 and s["q"] > 0)
+    ctx.traces += len(stats)
+    rep = {"histories": r["files"], "lockstep_ok": r["ok"], "lockstep_diffs": len(r["diffs"]), "outside_the_modelled_fragment": len(r["outside"]),
+           "model_ops": r["ops"], "outputs_compared": r["outs"], "monitor_violations_this_property": sum(1 for v in viols if v["prop"] in (monitor_props or (ctx.pid,))),
+           "attributed_to_known_findings": nk}
+    if r["outside"]:
+        rep["outside_examples"] = r["outside"][:3]
+    # a history that leaves the modelled fragment is a harness matter unless the gateway did it (an unexpected request,
+    # unsubscription or error log is compared as output, so it shows up as a difference, not here); more than a few are reported
+    if len(r["outside"]) > max(3, r["files"] // 20):
+        o = r["outside"][0]
+        ctx.add_violation("core: %d of %d histories left the fragment modelled by Comp/Core.v (first: %s line %d: %s)" % (
+            len(r["outside"]), r["files"], os.path.basename(o["path"]), o["line"], o["why"]), {"kind": "core-profile", "example": o}, no_input=True)
+    if r["diffs"]:
+        d = r["diffs"][0]
+        hist = d["path"][:-len(".trace")] + ".history.json"
+        keep = os.path.join(REPLAYS, "%s-core-%s" % (ctx.pid, os.path.basename(hist)))
+        subprocess.run(["cp", hist, keep])
+        subprocess.run(["cp", d["path"], keep[:-len(".history.json")] + ".trace"])
+        what = ("core: lock-step correspondence broken (gateway differs from the Coq model Comp/Core.v) in %d of %d histories; first: %s line %d on %s: "
+                "model emits [%s], gateway emitted [%s]" % (len(r["diffs"]), r["files"], os.path.basename(d["path"]), d["line"], d["op"], d["model"], d["gateway"]))
+        payload = {"kind": "core", "history": keep, "difference": d,
+                   "broken": "correspondence Core.kstep = gateway (theorems of Proofs/CoreProofs.v no longer speak about this code)"}
+        if found_input:
+            # the monitors found a history on which the property itself fails: that violation (with its replay) is already reported
+            ctx.notes.append(what)
+        else:
+            ctx.add_violation(what + "; the monitors of this property found no violating history among them", payload, no_input=True)
+    subprocess.run(["rm", "-rf", tdir])
+    return rep
+
+
 # ------------------------------------------------------------------ NATS adapter stage
 
 def stage_nats(ctx, n_quick=300, n_thorough=3000):
